@@ -296,6 +296,36 @@ func (sc *c13Scenario) Run(s *simrt.Sim) {
 			Detail: fmt.Sprintf("follow-up %s: the actor no longer answers (a late Reply blocked or killed it?)", fr.op.String())})
 	}
 	s.Sleep(100 * time.Millisecond)
+	// One Ask object used again and again after SUCCESSFUL asks (through every entry point): each call is a
+	// request of its own and gets the actor's reply
+	{
+		msg++
+		rr := &c13Req{msg: msg, spec: c13Ask{Via: "reused", Policy: "now"}}
+		byMsg[msg] = rr
+		rask := fpgo.AskNewGenerics[int, int](rr.msg)
+		var res []string
+		rt := s.Go("reuser", func() {
+			h.Do("reuser", "AskOnce x2, AskOnceWithTimeout, AskChannel on one Ask object", rr.msg, func() (interface{}, error) {
+				res = append(res, fmt.Sprint(rask.AskOnce(proxy)))
+				res = append(res, fmt.Sprint(rask.AskOnce(proxy)))
+				v, err := rask.AskOnceWithTimeout(proxy, 10*time.Minute)
+				res = append(res, fmt.Sprint(v, err))
+				ch := rask.AskChannel(proxy)
+				tk := simrt.B(-4)
+				v2, ok := <-ch
+				simrt.U(tk)
+				res = append(res, fmt.Sprint(v2, ok))
+				return nil, nil
+			})
+		})
+		want := fmt.Sprint([]string{fmt.Sprint(c13f(rr.msg)), fmt.Sprint(c13f(rr.msg)), fmt.Sprint(c13f(rr.msg), nil), fmt.Sprint(c13f(rr.msg), true)})
+		if !s.WaitUntilTimeout(rt.Done, 30*time.Minute) {
+			sc.extra = append(sc.extra, Violation{Clause: "hang", Fingerprint: "ask-object-reused-after-success-hangs", Detail: fmt.Sprintf("one Ask object asked four times in a row (actor answers at once): got %v so far, then no return", res)})
+		} else if fmt.Sprint(res) != want {
+			sc.extra = append(sc.extra, Violation{Clause: "correlation", Fingerprint: "ask-object-reused-after-success", Detail: fmt.Sprintf("one Ask object asked four times in a row (AskOnce, AskOnce, AskOnceWithTimeout, AskChannel; the actor answers each at once): got %v, want %s", res, want)})
+		}
+		sc.probes["ask-object-reused-after-successful-asks"]++
+	}
 	// Last of all: a question whose answer is followed by the actor closing itself. The asker talks to the actor
 	// directly (no proxy). The answer was given in time, so the asker gets it, closed actor or not.
 	msg++
